@@ -22,7 +22,9 @@ CONSTANTS MaxTokens, SwappedIds
 
 Lits == {"lit_a", "lit_space", "lit_unicode", "lit_percent"}   \* lit_percent: text with printf directives ("9% %s %d")
 Braces == {"lbrace2", "rbrace2"}              \* the escapes {{ and }}
-FieldOk == {"f_local", "f_attr", "f_index", "f_call", "f_percent"}   \* f_percent: the value text holds "%s"
+FieldOk == {"f_local", "f_attr", "f_index", "f_call", "f_percent",
+            "f_zero", "f_empty"}     \* fields whose value is falsy (0, the empty string): still values, rendered as text
+            \* f_percent: the value text holds "%s"
 FieldBad == {"f_missing", "f_raises"}
 Tokens == Lits \cup Braces \cup FieldOk \cup FieldBad
 
